@@ -147,6 +147,7 @@ func init() {
 			for _, r := range []*report.RuleResult{a, b, cc, d, e} {
 				c.Add(r)
 			}
+			c.byteClasses()
 		},
 	}
 }
